@@ -19,3 +19,4 @@ open Nitime.C18.Props
 #print axioms boxcar_mean
 #print axioms axis_preserved
 #print axioms axis_comp_all
+#print axioms axis_all_methods
